@@ -4,6 +4,7 @@ C15 — references between entries resolve to the referenced entry's final posit
 import JubakoModel.Model.Refs
 import JubakoModel.Lemmas.Codec
 import JubakoModel.Lemmas.Refs
+import JubakoModel.Lemmas.MultiStore
 
 namespace Jubako
 
@@ -106,6 +107,64 @@ theorem c15_file_ref_value (d : DirRefIn) (passes : List (List Nat)) (e j t : Na
 example :
     let s := (FinSt.mk [0, 1, 2] (fun _ => 0)).run (finalizeSteps [[2, 1, 0]])
     s.cells 0 = 2 ∧ s.cells 1 = 1 ∧ s.cells 2 = 0 ∧ refValue s.cells 2 = 0 := by
+  decide
+
+/-! ### Several entry stores in one directory pack -/
+
+/-- **References across entry stores** (the schedule of the repaired `DirectoryPackCreator::finalize`:
+    every store is given its final order, then every store sizes its columns, then the stores are
+    written).  For any number of stores, any number of entries, any outcome of every sort pass of
+    every store: the cells that every sizing pass reads, the cells that every serialisation reads and
+    the cells the handles report afterwards are the same, and they hold the final position of every
+    entry of every store — whatever refers to whatever, within a store or across stores. -/
+theorem c15_multi_store (stores : List StoreIn) :
+    let s := (MSt.init stores).run stores (finalizeRepaired stores.length)
+    (∀ p ∈ s.sizedAt, ∀ i, i < stores.length → ∀ e, p.2 i e = finalPos stores i e) ∧
+    (∀ p ∈ s.writtenAt, ∀ i, i < stores.length → ∀ e, p.2 i e = finalPos stores i e) ∧
+    (∀ i, i < stores.length → ∀ e, s.cells i e = finalPos stores i e) := by
+  intro s
+  have hsort := sorted_all stores stores.length (Nat.le_refl _)
+  have hrun : s = (((MSt.init stores).run stores ((List.range stores.length).map MAct.sort)).run stores
+      ((List.range stores.length).map MAct.size ++ (List.range stores.length).map MAct.write)) := by
+    simp [s, finalizeRepaired, MSt.run, List.foldl_append]
+  obtain ⟨h1, h2, h3⟩ := run_size_write stores
+    ((MSt.init stores).run stores ((List.range stores.length).map MAct.sort))
+    ((List.range stores.length).map MAct.size ++ (List.range stores.length).map MAct.write)
+    (by
+      intro a ha
+      rcases List.mem_append.mp ha with h | h
+      · obtain ⟨i, _, rfl⟩ := List.mem_map.mp h; exact Or.inl ⟨i, rfl⟩
+      · obtain ⟨i, _, rfl⟩ := List.mem_map.mp h; exact Or.inr ⟨i, rfl⟩)
+  rw [← hrun] at h1 h2 h3
+  refine ⟨?_, ?_, ?_⟩
+  · intro p hp i hi e
+    rcases h2 p hp with h | h
+    · rw [hsort.sized] at h; cases h
+    · rw [h]; exact hsort.done i hi hi e
+  · intro p hp i hi e
+    rcases h3 p hp with h | h
+    · rw [hsort.written] at h; cases h
+    · rw [h]; exact hsort.done i hi hi e
+  · intro i hi e
+    rw [h1]; exact hsort.done i hi hi e
+
+/-- **The pinned schedule (sort and size store after store) does not have this property** — defect
+    D13, repaired by `/repo` 7dd7146: with a one-entry store registered before a two-entry store whose
+    sort reverses it, the first store's sizing pass reads position 0 for an entry whose final position
+    is 1.  (A witness in the model of what `./check C15` found on the real code with 256 and 649
+    entries.) -/
+theorem c15_multi_store_pinned_schedule_fails :
+    let stores := [StoreIn.mk 1 [], StoreIn.mk 2 [[1, 0]]]
+    let s := (MSt.init stores).run stores (finalizePinned stores.length)
+    (s.sizedAt.head?.map (fun p => p.2 1 0)) = some 0 ∧ finalPos stores 1 0 = 1 := by
+  decide
+
+/-- non-vacuity of `c15_multi_store`: the same two stores under the repaired schedule — the sizing
+    pass of the first store reads the final position -/
+example :
+    let stores := [StoreIn.mk 1 [], StoreIn.mk 2 [[1, 0]]]
+    let s := (MSt.init stores).run stores (finalizeRepaired stores.length)
+    (s.sizedAt.head?.map (fun p => p.2 1 0)) = some 1 := by
   decide
 
 end Jubako
